@@ -114,8 +114,14 @@ static hazard_pointer_thread_record_t* recs[CFG_N];
 static void build_records(void) {
   rec_used = 0;
   g_head = NULL;
-  for (int i = 0; i < CFG_N; ++i)
+  for (int i = 0; i < CFG_N; ++i) {
     recs[i] = hazard_pointer_thread_record_create_and_push(&g_head, (size_t)CFG_K); /* REAL */
+#ifdef PRESCAN
+    /* the oldest record already scanned once while it was alone: it owns a scratch list sized for ONE
+     * record; records joining later make the next scan take the re-allocation path */
+    if (i == 0) hazard_pointer_scan(recs[0]); /* REAL */
+#endif
+  }
   for (int i = 0; i < PM; ++i) gc_calls[i] = 0;
   gc_foreign = 0;
 }
@@ -190,8 +196,18 @@ static void retire_directly(hazard_pointer_thread_record_t* hptr, int cnt) {
   for (int i = 0; i < PM; ++i) retired[i] = 0;
   for (int r = 0; r < RMAX; ++r) {
     if (r < cnt) {
+#ifdef CFG_CNT
+      /* "fixed" variant for the large configurations: the retired nodes are pool[1..cnt], retired in
+       * ascending (or, with CFG_DESC, descending) address order; slot addresses stay fully symbolic */
+#ifdef CFG_DESC
+      unsigned j = (unsigned)(cnt - r);
+#else
+      unsigned j = (unsigned)(r + 1);
+#endif
+#else
       unsigned j = nondet_unsigned();
       __CPROVER_assume(j >= 1 && j < PM && !retired[j]); /* a node is retired once */
+#endif
       retired[j] = 1;
       prepare_node(j);
       pool[j].next = hptr->retired_list;
@@ -242,13 +258,13 @@ static void check_after_scan(hazard_pointer_thread_record_t* hptr) {
 
 /* ------------------------------------------------------------------ 1. hazard_pointer_scan */
 static void scan_body(hazard_pointer_thread_record_t* hptr) {
-#ifdef PRESCAN
-  /* the scanning record may already own a scratch list from an earlier scan */
-  if (nondet_bool()) hazard_pointer_scan(hptr); /* REAL */
-#endif
   havoc_slots(-1);
+#ifdef CFG_CNT
+  int cnt = CFG_CNT;
+#else
   int cnt = nondet_int();
   __CPROVER_assume(cnt >= 0 && cnt <= RMAX);
+#endif
   retire_directly(hptr, cnt);
 
   hazard_pointer_scan(hptr); /* REAL */
